@@ -147,6 +147,24 @@ pub fn run(ctx: &Ctx, rep: &mut Report) {
                     }
                 }
             }
+            // now and then the usual destination loses (or regains) its trust right between two
+            // requests toward it
+            if rng.chance(1, 8) {
+                let now = w.model.trusted.contains(&b"ethereum".to_vec());
+                let owner = w.owner.clone();
+                let o = w.do_set_trusted(b"ethereum", !now, Auth::Only(vec![owner]));
+                rep.count("trust-flip-of-usual-destination");
+                if !o.ok() {
+                    rep.foreign("trusted-chain-change-refused");
+                    break;
+                }
+                if now {
+                    w.model.trusted.remove(&b"ethereum".to_vec());
+                } else {
+                    w.model.trusted.insert(b"ethereum".to_vec());
+                    w.model.ever_trusted.insert(b"ethereum".to_vec());
+                }
+            }
             let canonical = rng.chance(1, 2);
             // single-deviation style: one dimension deviates, the others conform (or all random)
             let focus = *rng.pick(&["none", "none", "caller", "caller", "dest", "dest", "gas", "gas", "meta", "meta", "random"]);
@@ -158,6 +176,7 @@ pub fn run(ctx: &Ctx, rep: &mut Report) {
                 _ => HUB_CHAIN.to_vec(),
             };
             let dest_trusted = w.model.trusted.contains(&dest);
+            let dclass = if dclass == "trusted" && !dest_trusted { "usual-destination-just-removed" } else { dclass };
             let payer = users[rng.usize(users.len())].clone();
             // (token address, expected id if registered, caller, salt)
             let variant: &str;
@@ -376,5 +395,5 @@ pub fn run(ctx: &Ctx, rep: &mut Report) {
     req.extend(META.iter().map(|c| format!("meta:{}", c)));
     rep.notes.insert("required".into(), json!(req));
     rep.notes.insert("token_mode".into(), json!("native"));
-    rep.notes.insert("rule".into(), json!("universes of 24 requests over 2 service-deployed tokens (tree code; plain, multi-byte, 1-character and 255-decimals metadata), a registered asset contract, a registered probe token whose name/symbol/decimals are varied (multi-byte, 0/255/256 decimals, empty name or symbol, non-UTF-8 name, asset-style CODE:ISSUER, trailing / interior / only NUL bytes, surrounding whitespace, 300-byte name) and an unregistered asset: deploy_remote_interchain_token by the deployer, another account reusing the salt, an unused salt, without or with a stranger's authorisation; deploy_remote_canonical_token for registered / unregistered tokens with the payer's, no or a stranger's authorisation; destination in {trusted, never trusted, removed, the hub chain (trusted in a third of the universes)}; gas in {0, -1, 1, balance, balance+1}. On success the announced payload is compared with the independent encoding built from metadata read from the token; exactly one token_deployment_started; gas_paid for that payload; all balances diffed. distinct = (entry point, variant, destination class, gas class, metadata representable, outcome)"));
+    rep.notes.insert("rule".into(), json!("universes of 24 requests over 2 service-deployed tokens (tree code; plain, multi-byte, 1-character and 255-decimals metadata), a registered asset contract, a registered probe token whose name/symbol/decimals are varied (multi-byte, 0/255/256 decimals, empty name or symbol, non-UTF-8 name, asset-style CODE:ISSUER, trailing / interior / only NUL bytes, surrounding whitespace, 300-byte name) and an unregistered asset: deploy_remote_interchain_token by the deployer, another account reusing the salt, an unused salt, without or with a stranger's authorisation; deploy_remote_canonical_token for registered / unregistered tokens with the payer's, no or a stranger's authorisation; destination in {trusted, never trusted, removed before any use, the usual destination right after its trust was removed (and restored later), the hub chain (trusted in a third of the universes)}; gas in {0, -1, 1, balance, balance+1}. On success the announced payload is compared with the independent encoding built from metadata read from the token; exactly one token_deployment_started; gas_paid for that payload; all balances diffed. distinct = (entry point, variant, destination class, gas class, metadata representable, outcome)"));
 }
